@@ -1,11 +1,11 @@
 package main
 
 import (
-	"os"
 	"fmt"
 	"go/ast"
 	"go/parser"
 	"go/token"
+	"os"
 	"path/filepath"
 	"regexp"
 	"sort"
@@ -94,11 +94,11 @@ func cmdC02Corr(seed uint64, n int, dir string) {
 // optimizer off vs on: generated programs and every string of the repository's test tables
 
 type evalObs struct {
-	out   string
-	rets  string
-	err   bool
-	line  string
-	panic string
+	out     string
+	rets    string
+	err     bool
+	line    string
+	panic   string
 	limited bool // the run was cut off by the harness's output limit (a non-terminating program)
 }
 
